@@ -4,8 +4,9 @@
 Hand model of `parsers.parse_amount`, `parsers.extract_location` and of the row loop of
 `parsers.parse_generic_csv` (called with `rules=[]`: classification is out of scope here).
 
-* Input = rows **after** tokenisation (`csv.reader` / tab / single char / regex groups are trusted:
-  the harness feeds the model the rows `_iter_rows_with_delimiter` produced from the same file).
+* `parseFile`: input = rows **after** tokenisation (the harness feeds the model the rows
+  `_iter_rows_with_delimiter` produced from the same file).  Tokenisation itself is `iterRows` (section
+  "tokenisation"): `readCsv` models `csv.reader`, the regular expression of a `regex:` delimiter is a parameter.
 * Text is `List Char`; every function is total and structurally recursive.
 * External functions are parameters (`Oracles`): `float()` and `datetime.strptime`.
 * A Python `float` is its IEEE-754 bit pattern, split into sign bit and 63-bit magnitude (`F64`);
@@ -305,6 +306,137 @@ def step (o : Oracles) (cfg : Cfg) (st : Except Err (List Txn)) (row : List Str)
 /-- `parse_generic_csv` on tokenised rows -/
 def parseFile (o : Oracles) (cfg : Cfg) (rows : List (List Str)) : Except Err (List Txn) :=
   rows.foldl (step o cfg) (.ok [])
+
+/-! ## tokenisation: `parsers._iter_rows_with_delimiter`
+
+The file is opened in text mode with universal newlines, so the text the tokenisers see contains no `'\r'`
+(every line terminator is `'\n'`); the model is stated on that text.  `readCsv` is CPython's `_csv` reader
+(`Modules/_csv.c`, `parse_process_char`) for the dialect tally uses: delimiter `d`, quote character `"`,
+`doublequote`, no escape character, `skipinitialspace=False`, `strict=False`.  The reader is fed physical
+lines; because a line ends at `'\n'` and nowhere else, feeding it the whole text character by character is
+the same machine: `'\n'` outside quotes ends the record (`EAT_CRNL` + end of line), inside quotes it is data.
+`writeCsv` is `csv.writer(…, delimiter=d, lineterminator='\n')` with `QUOTE_MINIMAL`.  The regular expression of the
+`regex:` delimiter is a parameter (`m`: stripped line ↦ groups of `pattern.match`, `none` = no match). -/
+
+inductive RState | startRecord | startField | inField | inQuoted | quoteInQuoted
+deriving DecidableEq, Repr
+
+/-- reader state: automaton state, characters of the field being read, fields of the record so far -/
+structure RS where
+  st : RState
+  field : Str
+  row : List Str
+deriving DecidableEq, Repr
+
+def RS.init : RS := ⟨.startRecord, [], []⟩
+/-- `parse_save_field`, then expect another field -/
+def RS.save (s : RS) : RS := ⟨.startField, [], s.row ++ [s.field]⟩
+/-- `parse_add_char` -/
+def RS.add (s : RS) (st : RState) (c : Char) : RS := ⟨st, s.field ++ [c], s.row⟩
+/-- the record is complete -/
+def RS.emit (s : RS) : RS × Option (List Str) := (RS.init, some (s.row ++ [s.field]))
+
+/-- `START_FIELD` -/
+def stepStartField (d : Char) (s : RS) (c : Char) : RS × Option (List Str) :=
+  if c = '\n' then s.emit
+  else if c = '"' then ({ s with st := .inQuoted }, none)
+  else if c = d then (s.save, none)
+  else (s.add .inField c, none)
+
+/-- one character through `parse_process_char`; the second component is the record completed by it -/
+def rstep (d : Char) (s : RS) (c : Char) : RS × Option (List Str) :=
+  match s.st with
+  | .startRecord => if c = '\n' then (RS.init, some []) else stepStartField d s c
+  | .startField => stepStartField d s c
+  | .inField =>
+    if c = '\n' then s.emit else if c = d then (s.save, none) else (s.add .inField c, none)
+  | .inQuoted => if c = '"' then ({ s with st := .quoteInQuoted }, none) else (s.add .inQuoted c, none)
+  | .quoteInQuoted =>
+    if c = '"' then (s.add .inQuoted c, none)
+    else if c = d then (s.save, none)
+    else if c = '\n' then s.emit
+    else (s.add .inField c, none)
+
+/-- run the automaton over a text: records completed, state at the end -/
+def runCsv (d : Char) (s : RS) : Str → List (List Str) × RS
+  | [] => ([], s)
+  | c :: cs =>
+    match rstep d s c with
+    | (s', some r) => let (rs, e) := runCsv d s' cs; (r :: rs, e)
+    | (s', none) => runCsv d s' cs
+
+/-- end of file (`Reader_iternext` when the line iterator is exhausted): a record that is under way - text
+after the last `'\n'`, or an unterminated quoted field - is returned as it stands -/
+def RS.flush (s : RS) : List (List Str) := if s.st = .startRecord then [] else [s.row ++ [s.field]]
+
+/-- `list(csv.reader(f, delimiter=d))` -/
+def readCsv (d : Char) (text : Str) : List (List Str) :=
+  let (rs, e) := runCsv d RS.init text
+  rs ++ e.flush
+
+/-- `QUOTE_MINIMAL`: the field contains the delimiter, the quote character or the line terminator -/
+def needsQuote (d : Char) (f : Str) : Bool := f.any fun c => c == d || c == '"' || c == '\n'
+def escapeQuotes : Str → Str
+  | [] => []
+  | c :: cs => if c = '"' then '"' :: '"' :: escapeQuotes cs else c :: escapeQuotes cs
+def writeField (d : Char) (f : Str) : Str :=
+  if needsQuote d f then '"' :: (escapeQuotes f ++ ['"']) else f
+def joinFields (d : Char) : List Str → Str
+  | [] => []
+  | [f] => f
+  | f :: fs => f ++ d :: joinFields d fs
+/-- `writer.writerow(row)`; a record consisting of one empty field is written `""` (an empty line would read back
+as a record without fields) -/
+def writeRow (d : Char) (row : List Str) : Str :=
+  match row with
+  | [[]] => ['"', '"', '\n']
+  | _ => joinFields d (row.map (writeField d)) ++ ['\n']
+def writeCsv (d : Char) (rows : List (List Str)) : Str := rows.flatMap (writeRow d)
+
+/-- the physical lines of a text file (`for line in f`), without their terminator -/
+def splitLinesGo (cur : Str) : Str → List Str
+  | [] => if cur.isEmpty then [] else [cur]
+  | c :: cs => if c = '\n' then cur :: splitLinesGo [] cs else splitLinesGo (cur ++ [c]) cs
+def splitLines (text : Str) : List Str := splitLinesGo [] text
+
+/-- the `regex:` branch as written: `for i, line in enumerate(f)` with `continue` for the header line, blank lines
+and lines the pattern does not match -/
+def regexLoop (m : Str → Option (List Str)) (hasHeader : Bool) : Nat → List Str → List (List Str)
+  | _, [] => []
+  | i, l :: ls =>
+    if hasHeader && i == 0 then regexLoop m hasHeader (i + 1) ls else
+    let s := strip l
+    if s.isEmpty then regexLoop m hasHeader (i + 1) ls else
+    match m s with
+    | some g => g :: regexLoop m hasHeader (i + 1) ls
+    | none => regexLoop m hasHeader (i + 1) ls
+
+/-- what one physical line contributes under a `regex:` delimiter -/
+def lineRow (m : Str → Option (List Str)) (l : Str) : Option (List Str) :=
+  let s := strip l
+  if s.isEmpty then none else m s
+
+/-- how `_iter_rows_with_delimiter` reads its `delimiter` argument -/
+inductive Delim
+  | csv (d : Char)
+  | regex
+deriving DecidableEq, Repr
+
+def delimOf (delimiter : Option Str) : Delim :=
+  match delimiter with
+  | none => .csv ','
+  | some s =>
+    let s := if s = "tab".toList then ['\t'] else s
+    if "regex:".toList.isPrefixOf s then .regex else
+    match s with
+    | [c] => .csv c
+    | _ => .csv ','
+
+/-- `_iter_rows_with_delimiter` on the decoded text of the file -/
+def iterRows (m : Str → Option (List Str)) (dl : Delim) (hasHeader : Bool) (text : Str) : List (List Str) :=
+  match dl with
+  | .regex => regexLoop m hasHeader 0 (splitLines text)
+  | .csv d => let rows := readCsv d text; if hasHeader then rows.drop 1 else rows
 
 /-! ## rendering amounts (for the round-trip theorems and the driver op `amount`) -/
 
